@@ -90,7 +90,7 @@ Theorem C08_agg_stage_refines_eval : forall q aggs (parts : list (list series)) 
   (q_interval q =? 0)%Z = false -> Permutation (concat parts) ms ->
   finalize aggs (l2_partials q aggs parts sizes) = prefill_rows (q_interval q) (agg_cols_of q aggs ms).
 Proof.
-  intros q aggs parts ms sizes E P. rewrite (l2_partials_canon q aggs parts ms sizes P). exact (finalize_canonp q aggs ms E).
+  intros q aggs parts ms sizes E P. unfold l2_partials. rewrite (l2_partials_canon (bkey q) q aggs parts ms sizes P). exact (finalize_canonp q aggs ms E).
 Qed.
 Print Assumptions C08_agg_stage_refines_eval.
 
